@@ -203,6 +203,9 @@ theorem lineboxLoop_embed (c : Ctx) (st : PStyle) (b : BoxSt) (n : Nat) (lineH :
 
 /-! ### `find_earlier_page_break` -/
 
+@[simp] theorem cutEnd_embed (f : Frag) : (embedFrag f).cutEnd = embedFrag f.cutEnd := by
+  cases f <;> simp [embedFrag, CFrag.cutEnd, Frag.cutEnd]
+
 def embedEarlier (s : PM.EarlierState) : EarlierState :=
   { found := s.found.map (fun p => (embedFragList p.1, p.2)), prev := s.prev.map embedFrag }
 
